@@ -74,6 +74,8 @@ def load(backend="snarkjs", symbolic=False, quiet=True):
     else:
         e.rec = be
     install_tracking(e)
+    if backend in ("snarkjs", "zkinterface", "zkifbellman", "zkifbulletproofs"):
+        install_capture(e, [e.rec])
     if symbolic:
         from . import engine
         engine.inject(*e.mods)
@@ -81,6 +83,57 @@ def load(backend="snarkjs", symbolic=False, quiet=True):
         install_bool_summaries(e, engine)
     _ENV = e
     return e
+
+
+class RecFile:
+    """stand-in for a binary/text file: keeps what was written as a list of chunks (bytes, SymBytes, str, Message)"""
+
+    def __init__(self, store, name, mode):
+        self.name, self.mode = name, mode
+        self.chunks = []
+        store.setdefault(name, []).append(self)
+        self.closed = False
+
+    def write(self, b):
+        self.chunks.append(b)
+
+    def flush(self):
+        pass
+
+    def close(self):
+        self.closed = True
+
+    def __enter__(self):
+        return self
+
+    def __exit__(self, *a):
+        self.close()
+
+
+class SymBytes(list):
+    """bytes([...]) with possibly symbolic elements"""
+
+
+def install_capture(e, mods):
+    """route open()/bytes() of the given backend modules into e.files (no real files are written)"""
+    import builtins
+    e.files = {}
+
+    def rec_open(name, mode="r", *a, **kw):
+        if "w" in mode:
+            return RecFile(e.files, str(name), mode)
+        return builtins.open(name, mode, *a, **kw)
+
+    def rec_bytes(x=b"", *a, **kw):
+        if isinstance(x, list) and not a and not kw:
+            if all(type(v) is int for v in x):
+                return builtins.bytes(x)
+            return SymBytes(x)
+        return builtins.bytes(x, *a, **kw)
+    for m in mods:
+        m.open = rec_open
+        m.bytes = rec_bytes
+        m.print = lambda *a, **k: None
 
 
 def install_tracking(e):
@@ -135,6 +188,8 @@ def reset(e, bitlength=None, resolution=None):
         rec.pubvals.clear()
         rec.constraints.clear()
     rt = e.rt
+    if hasattr(e, "files"):
+        e.files.clear()
     del e.created[:]
     rt.guard = None
     rt._ignore_errors = False
